@@ -573,6 +573,13 @@ bool Instance::configure_tx_txin() {
             fprintf(stderr, "invalid script (witness stack last element)\n");
             return false;
         }
+        // the initial stack of a witness script is subject to the script element size limit
+        for (size_t i = 0; sigver != SigVersion::TAPROOT && i < wstack_to_stack; i++) {
+            if (wstack[i].size() > MAX_SCRIPT_ELEMENT_SIZE) {
+                fprintf(stderr, "witness stack item #%zu is %zu bytes; the maximum script element size is %u bytes (push size)\n", i, wstack[i].size(), MAX_SCRIPT_ELEMENT_SIZE);
+                return false;
+            }
+        }
         // put remainder on to-be-parsed stack
         for (size_t i = 0; i < wstack_to_stack; i++) {
             push_del.push_back(strdup(HexStr(wstack[i]).c_str())); // TODO: use as is rather than hexing and dehexing
